@@ -700,6 +700,22 @@ def gen_tol_cases(rng, count):
     return cases
 
 
+def gen_tol_big(rng, sizes):
+    """tolerance stream, sizes far from the small cases (a branch that only switches at large N): QuadTree(Y, N) on a few
+    thousand random doubles with some exact duplicates; checked on the dump alone and against the binary64 replay (no
+    containsPoint matrix: N x cells evaluations in Coq would dominate the run)"""
+    cases = []
+    for n in sizes:
+        pts = [(rng.gauss(0, 1), rng.gauss(0, 1)) for _ in range(n)]
+        for _ in range(n // 50):
+            pts[rng.randrange(n)] = pts[rng.randrange(n)]
+        q = sorted(rng.sample(range(n), 6))
+        cases.append({"kind": "tol_big", "mode": "A", "fm": False, "root": ["0:0"] * 4,
+                      "pts": [[mez(a), mez(b)] for a, b in pts], "order": list(range(n)),
+                      "thetas": ["0:0", "1:-1"], "queries": q, "short": False})
+    return cases
+
+
 # ----------------------------------------------------------------------------- running
 def case_line_impl(k, c):
     t = ["K", str(k), c["mode"]] + c["root"] + [str(len(c["pts"]))]
@@ -1333,6 +1349,19 @@ def check_impl_alone(ctx, c, d, pts, stats, report):
         report("an index is stored in two cells: %s" % stored[:30])
     if any(j not in d["ins"] for j in stored):
         report("a stored index was never inserted")
+    # coincident points share a cell: two stored indices never carry the same point (as NUMBERS: +0.0 = -0.0)
+    first = {}
+    for j in stored:
+        if not (0 <= j < len(pts)):
+            continue
+        i = first.setdefault(pts[j], j)
+        if i != j:
+            report("points %d and %d coincide, (%s, %s)%s, but are stored in two different cells: coincident points must "
+                   "share one leaf (count[0] = number of copies)"
+                   % (i, j, float(pts[j][0]), float(pts[j][1]),
+                      " - they differ only in the sign bit of a zero coordinate (%s vs %s)" % (c["pts"][i], c["pts"][j])
+                      if c["pts"][i] != c["pts"][j] else ""))
+            break
     if cells[0][8] != n_ins:
         report("root cum_size %d but %d points were inserted successfully" % (cells[0][8], n_ins))
     for k, ch in enumerate(kids):
@@ -2140,9 +2169,13 @@ def run(ctx):
     decorate_signed_zeros(rng, cases[ncorpus:])
     cases += gen_signed_zero_cases(rng, bud["signed_zero"])
     cases += gen_tol_cases(rng, ntol)
+    nbig = len(cases)
+    cases += gen_tol_big(rng, [1500] if ctx.quick else [1500, 6000])
     # the binary64 model (Coq primitive floats) runs on the real dump of: corpus, every tolerance-stream case, every
     # scaled case, every 8th other case
     for i, c in enumerate(cases):
+        if i >= nbig:
+            continue
         if c["kind"].startswith("tol") or c["kind"].startswith("scale") or c["kind"] == "signed_zero" or i % 8 == 0:
             c["fm"] = True
     n = 0
